@@ -156,8 +156,37 @@ def apply(world, a):
     if op == "profileaddremove":
         def g():
             cssutils.profile.addProfile("x-counts", {"-x-count": "{int}"}, macros={"int": r"\d+"})
-            cssutils.profile.removeProfile("x-counts")
-        return outcome(g)[0]
+            try:
+                # the profile takes effect at once: a declaration of it parsed now is valid (whatever was validated before)
+                props = [p for r in cssutils.parseString("a { -x-count: 3 }") for p in r.style]
+                v = cssutils.profile.validateWithProfile("-x-count", "3")
+                if not (props and props[0].valid and v[0] and v[1]):
+                    return "NotValidAfterAdd:%r" % (v,)
+            finally:
+                cssutils.profile.removeProfile("x-counts")
+            return "ok"
+        o, r = outcome(g)
+        return r if o == "ok" else o
+    if op == "serializeraises":
+        def boom_validator(v):
+            raise RuntimeError("validator failed")
+        mode0 = cssutils.log.raiseExceptions
+        cssutils.profile.addProfile("x-boom", {"-x-boom": boom_validator})
+        keep = cssutils.ser.prefs.validOnly
+        try:
+            sheet = cssutils.CSSParser(validate=False).parseString("@media print { a { left: 0; -x-boom: 1 } }")
+            cssutils.ser.prefs.validOnly = True
+            cssutils.log.raiseExceptions = True          # the library-wide default outside a parse
+            try:
+                sheet.cssText
+                res = "returned"
+            except Exception:
+                res = "raised"              # (cssutils wraps the validator's exception)
+        finally:
+            cssutils.ser.prefs.validOnly = keep
+            cssutils.log.raiseExceptions = mode0
+            cssutils.profile.removeProfile("x-boom")
+        return res
     if op == "profileswitch":
         def h():
             prof = cssutils.profile
@@ -200,8 +229,12 @@ def run_trace(item):
     world = {"parsers": {}, "pref": "default", "tmp": tempfile.mkdtemp(prefix="c12_", dir=item["tmpdir"])}
     tr = {"id": item["id"], "init": project(ser0), "steps": []}
     for a in item["actions"]:
-        out = apply(world, a)
-        ev = {"a": a, "out": out, "post": project(ser0)}
+        crashed = False
+        try:
+            out = apply(world, a)
+        except Exception as e:          # an operation of the battery that works in a fresh process must work here too
+            out, crashed = "CRASH:" + type(e).__name__, True
+        ev = {"a": a, "out": out, "crashed": crashed, "post": project(ser0)}
         if a["op"] == "probe":
             ev["result"] = battery()
             ev["fresh"] = item["fresh"]["%s|%s" % (ev["post"]["mode"], world["pref"])]
